@@ -20,6 +20,7 @@ Inductive whnf :=
 | VArr (ts : list thunk)
 | VRec (fs : list (string * thunk))
 | VTag (t : string)
+| VVariant (t : string) (arg : thunk)
 with thunk :=
 | Thunk (m : mode) (e : tm) (rho : list (string * thunk)).
 
@@ -126,7 +127,7 @@ Section Delta.
     | VBool x, VBool y => Ok (VBool (Bool.eqb x y))
     | VTag x, VTag y => Ok (VBool (String.eqb x y))
     | VClo _ _ _ _, _ | _, VClo _ _ _ _ | VPrim _ _, _ | _, VPrim _ _ => Err EIncomparable
-    | VArr _, VArr _ | VRec _, VRec _ => Err EUnmodelled
+    | VArr _, VArr _ | VRec _, VRec _ | VVariant _ _, VVariant _ _ => Err EUnmodelled
     | _, _ => Ok (VBool false)
     end.
 
@@ -207,7 +208,11 @@ Definition cast_whnf (m : mode) (T : ty) (v : whnf) : outcome whnf :=
   match T, v with
   | TDyn, _ => Ok v
   | TNum, VNum _ | TStr, VStr _ | TBool, VBool _ => Ok v
-  | TEnum tags, VTag t => if existsb (String.eqb t) tags then Ok v else Err EBlame
+  | TEnum e, VTag t => match erows_lookup t e with Some None => Ok v | _ => Err EBlame end
+  | TEnum e, VVariant t th => match erows_lookup t e with
+                              | Some (Some T') => Ok (VVariant t (wrap m T' th))
+                              | _ => Err EBlame
+                              end
   | TArr T', VArr ts => Ok (VArr (map (wrap m T') ts))
   | TRec r, VRec fs =>
       (* closed record contract: exactly the declared fields *)
@@ -270,14 +275,24 @@ Fixpoint eval (n : nat) (m : mode) (rho : env) (e : tm) : outcome whnf :=
                      | OutOfFuel => OutOfFuel
                      end
       | Tag t => Ok (VTag t)
+      | Variant t e1 => Ok (VVariant t (Thunk m e1 rho))
       | Match e1 bs d => match eval n' m rho e1 with
-                         | Ok (VTag t) => match assoc t bs with
-                                          | Some b => eval n' m rho b
+                         | Ok (VTag t) => match find_branch t false bs with
+                                          | Some (_, b) => eval n' m rho b
                                           | None => match d with
                                                     | Some b => eval n' m rho b
                                                     | None => Err (ENonExhaustive m)
                                                     end
                                           end
+                         | Ok (VVariant t th) =>
+                             match find_branch t true bs with
+                             | Some (Some x, b) => eval n' m ((x, th) :: rho) b
+                             | Some (None, b) => eval n' m rho b
+                             | None => match d with
+                                       | Some b => eval n' m rho b
+                                       | None => Err (ENonExhaustive m)
+                                       end
+                             end
                          | Ok _ => match d with
                                    | Some b => eval n' m rho b
                                    | None => Err (ENonExhaustive m)
@@ -303,7 +318,7 @@ Definition eval_thunk (n : nat) (t : thunk) : outcome whnf :=
 
 Inductive dval :=
 | DNum (q : Q) | DStr (s : string) | DBool (b : bool) | DTag (t : string)
-| DArr (l : list dval) | DRec (l : list (string * dval)) | DFun.
+| DArr (l : list dval) | DRec (l : list (string * dval)) | DFun | DVariant (t : string) (d : dval).
 
 Section Force.
   Variable force : whnf -> outcome dval.
@@ -336,6 +351,7 @@ Fixpoint force (n : nat) (v : whnf) : outcome dval :=
       | VClo _ _ _ _ | VPrim _ _ => Ok DFun
       | VArr ts => bind (force_list (force n') (eval_thunk n') ts) (fun ds => Ok (DArr ds))
       | VRec fs => bind (force_fields (force n') (eval_thunk n') fs) (fun ds => Ok (DRec ds))
+      | VVariant t th => bind (eval_thunk n' th) (fun v' => bind (force n' v') (fun d => Ok (DVariant t d)))
       end
   end.
 
